@@ -25,14 +25,22 @@ spaces, tabs or both; blank lines carrying nothing, the margin, fewer or more co
 form feed, wherever a blank line occurs; the text opening on the line after the quotes; trailing
 whitespace-only lines; and 40% of those with a parent are placed as the real docstring literal in
 the parent's source (LF or CRLF) and read back through the visitor or the loader, CPython's
-ast.get_docstring + inspect.cleandoc being the ground truth for Docstring.value.
+ast.get_docstring + inspect.cleandoc being the ground truth for Docstring.value.  Every written text is, in addition, handed to
+Griffe through EVERY documented entry point (gen_entries): the style functions, parse_auto, griffe.parse, Docstring.parse,
+Docstring(parser=, parser_options=).parsed / .parse(), parser or options given to the constructor and the rest to parse(),
+attributes assigned afterwards; and, as the parent's real docstring, through visit / temporary_visited_module / GriffeLoader /
+griffe.load / temporary_visited_package / forced inspection / temporary_inspected_module / the `griffe dump -d -D` command
+line with docstring_parser= / docstring_options=; the style named directly or as 'auto' with default=<style>, with
+style_order=[<style>, ...] or with a default that overrides the order, with and without method=, names spelled as Parser
+members or literals -- always with the case's (mostly non-default) style options, which the renderer obeyed when writing.
 
 Oracle: an executable model of the documentation (``expect``) written independently of the
 parsers, compared field by field with the parsed sections (kinds, order, titles, names,
 annotations, defaults, descriptions, example blocks); every line of every description / title /
 text block carries a unique token and a conservation check over the JSON form of the parsed
 sections (``griffe.JSONEncoder``) verifies that each token occurs exactly where it was written
-(no loss, duplication or leakage across section boundaries).
+(no loss, duplication or leakage across section boundaries).  The sections obtained through each entry point must be
+the ones the case's own parse gave (which the model judges); when they are not, the model says which field was lost.
 """
 from __future__ import annotations
 
@@ -44,7 +52,7 @@ from vf.core.util import case_watchdog
 
 PROP = "C13"
 LEVEL = "exploration"
-ANCHORS = ["docstrings/google.py", "docstrings/numpy.py", "docstrings/sphinx.py", "docstrings/models.py"]
+ANCHORS = ["docstrings/google.py", "docstrings/numpy.py", "docstrings/sphinx.py", "docstrings/models.py", "docstrings/parsers.py"]
 RULE = ("random section lists of 2..8 sections over the kinds each style supports per the docs tables (Google/Numpy: text, "
         "parameters, other parameters, raises, warns, returns, yields, receives, examples, attributes, functions/methods, classes, "
         "modules, admonitions; Sphinx: text, parameters, attributes, returns, raises with fields interleaved in any order), 1..4 "
@@ -58,7 +66,13 @@ RULE = ("random section lists of 2..8 sections over the kinds each style support
         "50% of the texts written down with whitespace variants that do not change what is written (margin 0..16 in spaces/tabs/both, "
         "blank lines carrying 0..n columns of spaces, tabs or a form feed in every position, text opening on the next line, trailing "
         "whitespace-only lines; 40% of them as the parent's real docstring literal in a LF or CRLF source read by the visitor or the "
-        "loader): a blank line is blank whatever whitespace it carries; all parser options drawn at random (2^8 Google, 2^3 Numpy, 2 Sphinx); 8% of the structures carry exactly one "
+        "loader): a blank line is blank whatever whitespace it carries; every text additionally parsed through all 8 in-memory entry points "
+        "(style function / parse_auto, griffe.parse, Docstring.parse, constructor parser+options read through .parsed or parse(), parser or "
+        "options split between constructor and parse(), attributes assigned) and 30% of those with a parent through one of 8 source-level "
+        "ones (visit, temporary_visited_module, GriffeLoader.load, griffe.load, temporary_visited_package, forced inspection, "
+        "temporary_inspected_module, `griffe dump -d -D -f`), the style named or (60%) selected as 'auto' by default= / style_order= / "
+        "default over style_order, method absent / heuristics / max_sections, names as Parser members or literals, auto options before or "
+        "after the style options; all parser options drawn at random (2^8 Google, 2^3 Numpy, 2 Sphinx); 8% of the structures carry exactly one "
         "documented-but-suspicious construct (type field after its param, '):' inside a description, untyped attribute after a "
         "typed one, documented Numpy alias, lone Numpy name) so that the listed findings stay observable. distinct = digest of (style, options, "
         "structure); non-trivial = >=3 sections and one item with a multi-paragraph description")
@@ -72,7 +86,10 @@ LEVEL_TEXT = ("Each generated structure is rendered in the well-formed syntax of
               "The verdict is the same whether the text was given to a new Docstring or assigned to one that was read, parsed, "
               "visited or loaded before; Docstring.lines must equal str.split of the text the object holds. Whitespace carried by blank "
               "lines, margins, tabs, line endings of the source do not change the expected structure; for docstrings read from source "
-              "Docstring.value must equal inspect.cleandoc of the literal CPython's ast reads from the same file.")
+              "Docstring.value must equal inspect.cleandoc of the literal CPython's ast reads from the same file. The same text, style and "
+              "options given through any other documented entry point (generic parse, auto style with default / style_order, Docstring "
+              "attributes, loader / visitor / inspector / command-line docstring options) must yield exactly the sections judged above: the "
+              "options belong to the parser that finally reads the text.")
 LEVEL_NOTE = ("trusted: the three renderers and the model of docs/reference/docstrings.md in this file; corners the documentation "
               "leaves open are excluded (trailing newline of Numpy descriptions, leading newline of Google descriptions that start "
               "on a new line, Returns fallback from Generator annotations, annotations of properties); sampled, not exhaustive")
@@ -90,7 +107,12 @@ REQUIRED_COUNTERS = ["structures_parsed", "sections_compared", "items_compared",
                      "cases_with_whitespace_only_line_above_an_unindented_line", "cases_with_whitespace_only_line_inside_an_indented_block",
                      "docstrings_read_from_source_judged", "docstrings_loaded_from_disk_judged", "crlf_source_cases_judged",
                      "source_docstring_values_compared_with_cpython_cleandoc", "tab_cases_judged", "form_feed_cases_judged",
-                     "text_opening_on_the_next_line_cases_judged", "trailing_whitespace_line_cases_judged"]
+                     "text_opening_on_the_next_line_cases_judged", "trailing_whitespace_line_cases_judged",
+                     "entry_point_results_compared", "auto_style_entry_point_results_compared",
+                     "cases_whose_options_change_the_parsed_sections", "auto_style_entry_results_compared_where_the_options_decide",
+                     "named_style_entry_results_compared_where_the_options_decide", "auto_style_entry_results_compared_with_a_method",
+                     "loader_level_option_entry_results_compared", "loader_level_auto_style_entry_results_compared",
+                     "inspected_docstring_entry_results_compared", "command_line_dump_entry_results_compared"]
 EXHAUSTIVE = {"quick": False, "thorough": False}
 ASSUMPTIONS = ["'well-formed' means the syntax shown in docs/reference/docstrings.md (plus the Sphinx field-list syntax the docs link to)",
                "a blank line is blank whatever whitespace it carries (spaces, tabs, form feed; fewer or more columns than the margin): the "
@@ -100,6 +122,11 @@ ASSUMPTIONS = ["'well-formed' means the syntax shown in docs/reference/docstring
                "excluded whitespace variants: a carriage return inside a Docstring value (CPython never produces one from a line ending; "
                "the parsers document split at '\\n'); a form feed in a Google docstring parsed with *_multiple_items=False (that block goes "
                "through str.splitlines, for which a form feed is a line boundary); whitespace at the end of non-blank lines (it is content)",
+               "with the auto style this (non-Insiders) build selects default= when given, else the first member of style_order (docs, "
+               "Auto-style); 'any other option is passed down to the detected parser'; 'max_sections' is only combined with a style_order "
+               "(it is documented as never using the default)",
+               "excluded from the inspecting entry points: parents whose attribute annotations the model takes from the source (runtime "
+               "objects do not expose variable annotations to the inspector: a matter of dynamic analysis, not of docstring parsing)",
                "types are drawn from a pool of expressions whose str() is canonical; descriptions avoid section syntax of their own"]
 SHARD_TIMEOUT = {"quick": 900, "thorough": 7200}
 
@@ -1713,6 +1740,266 @@ def run_from_source(rec, struct: dict, text: str):  # noqa: ANN001, ANN201
     return ds, sections, mism
 
 
+# ------------------------------------------------------------------------------------------
+# entry points: the same written text, style and options handed to Griffe in every documented way
+#   api       how the text, the style and the options reach a parser (see IN_MEMORY_APIS / SOURCE_APIS)
+#   selector  how the style is named: by its name, or as 'auto' with default=<style>, with style_order=[<style>, ...], or with
+#             default=<style> over a style_order that starts with another style ("default is returned if specified, else the
+#             first parser in style_order"); optional method= (both documented values)
+#   enum / sub_enum   names spelled as Parser members or as their literal values (the style itself / default and style_order)
+# Whatever the entry point, the options belong to the parser that finally reads the text ("Any other option is passed down to
+# the detected parser"): the sections must be the ones the written structure describes under these options.
+IN_MEMORY_APIS = ["function", "griffe.parse", "Docstring.parse", "ctor.parsed", "ctor.parse()", "ctor-parser.parse(**options)",
+                  "ctor-options.parse(style)", "attributes.parsed"]
+SOURCE_APIS = ["visit", "temporary_visited_module", "GriffeLoader.load", "griffe.load", "temporary_visited_package",
+               "GriffeLoader.load-inspected", "temporary_inspected_module", "cli-dump"]
+INSPECTING_APIS = ("GriffeLoader.load-inspected", "temporary_inspected_module")
+SOURCE_ENTRY_SHARE = 0.3      # share of the structures with a parent whose text also travels through one source-level entry point
+AUTO_KEYS = ("method", "style_order", "default")
+
+
+def gen_selector(erng: random.Random, style: str, *, auto: bool, literal_only: bool = False) -> dict:
+    e: dict = {"selector": "named", "enum": (not literal_only) and erng.random() < 0.5}
+    if not auto:
+        return e
+    others = [s for s in STYLES if s != style]
+    erng.shuffle(others)
+    e["selector"] = erng.choice(["auto-default", "auto-default", "auto-order", "auto-order", "auto-default-over-order"])
+    e["sub_enum"] = (not literal_only) and erng.random() < 0.5
+    if e["selector"] == "auto-order":
+        e["order"] = [style, *others[: erng.randrange(3)]]
+    elif e["selector"] == "auto-default-over-order":
+        e["order"] = [*others[: erng.choice([1, 2])], *([style] if erng.random() < 0.5 else [])]
+    # 'max_sections' is documented as never using the default: it is only combined with a style_order
+    e["method"] = erng.choice([None, None, "heuristics", "max_sections"] if e["selector"] == "auto-order" else [None, None, "heuristics"])
+    e["auto_keys_first"] = erng.random() < 0.5        # where the auto options sit among the style options of the mapping
+    return e
+
+
+def gen_entries(erng: random.Random, struct: dict) -> list[dict]:
+    style = struct["style"]
+    entries = []
+    for api in IN_MEMORY_APIS:
+        entries.append({"api": api, **gen_selector(erng, style, auto=erng.random() < 0.6)})     # noqa: PLR2004
+    if struct["parent"]["kind"] != "none" and erng.random() < SOURCE_ENTRY_SHARE:
+        api = erng.choice(SOURCE_APIS)
+        if api in INSPECTING_APIS and any(struct["fallback"]["attrs"].values()):
+            # excluded: which annotations the attributes of an imported class / module expose is a matter of dynamic analysis
+            # (variable annotations are not read from runtime objects), not of how a docstring is parsed: the model of the
+            # parent describes the source, so such parents only travel through the entry points that read the source
+            api = erng.choice([a for a in SOURCE_APIS if a not in INSPECTING_APIS])
+        # the command line takes literal values only (-d <style> -D <JSON>)
+        entries.append({"api": api, **gen_selector(erng, style, auto=erng.random() < 0.6, literal_only=api == "cli-dump")})
+    return entries
+
+
+def entry_label(e: dict) -> str:
+    sel = e["selector"] + (f"+method={e['method']}" if e.get("method") else "")
+    return f"{e['api']}:{sel}:{'Parser' if e['enum'] else 'str'}" + ("/Parser" if e.get("sub_enum") else "")
+
+
+def entry_arguments(e: dict, style: str, options: dict):  # noqa: ANN201
+    """(style argument, options mapping) an entry point receives for this style and these style options."""
+    import griffe
+
+    def name(n: str, as_enum: bool):  # noqa: ANN202
+        return griffe.Parser(n) if as_enum else n
+
+    if e["selector"] == "named":
+        return name(style, e["enum"]), dict(options)
+    auto: dict = {}
+    if e.get("method"):
+        auto["method"] = e["method"]
+    if e["selector"] in ("auto-order", "auto-default-over-order"):
+        auto["style_order"] = [name(s, e["sub_enum"]) for s in e["order"]]
+    if e["selector"] in ("auto-default", "auto-default-over-order"):
+        auto["default"] = name(style, e["sub_enum"])
+    kw = {**auto, **options} if e.get("auto_keys_first") else {**options, **auto}
+    return name("auto", e["enum"]), kw
+
+
+_ENTRY_SERIAL = [0]
+
+
+def sections_through_entry(e: dict, struct: dict, text: str):  # noqa: ANN201, C901, PLR0911, PLR0912, PLR0915
+    """The sections of the written text obtained through one entry point; (sections | None, JSON tree | None)."""
+    import griffe
+    from vf.core.util import tmp_tree, visit_source
+
+    style, options = struct["style"], struct["options"]
+    arg, kw = entry_arguments(e, style, options)
+    api = e["api"]
+    if api in IN_MEMORY_APIS:
+        parent = parent_object(struct)
+        base = {"lineno": 1, "endlineno": 1 + text.count("\n"), "parent": parent}
+        if api == "function":
+            ds = griffe.Docstring(text, **base)
+            if e["selector"] == "named":
+                return {"google": griffe.parse_google, "numpy": griffe.parse_numpy, "sphinx": griffe.parse_sphinx}[style](ds, **kw), None
+            return griffe.parse_auto(ds, **kw), None
+        if api == "griffe.parse":
+            return griffe.parse(griffe.Docstring(text, **base), arg, **kw), None
+        if api == "Docstring.parse":
+            return griffe.Docstring(text, **base).parse(arg, **kw), None
+        if api == "ctor.parsed":
+            return griffe.Docstring(text, parser=arg, parser_options=kw, **base).parsed, None
+        if api == "ctor.parse()":
+            return griffe.Docstring(text, parser=arg, parser_options=kw, **base).parse(), None
+        if api == "ctor-parser.parse(**options)":
+            return griffe.Docstring(text, parser=arg, **base).parse(**kw), None
+        if api == "ctor-options.parse(style)":
+            return griffe.Docstring(text, parser_options=kw, **base).parse(arg), None
+        ds = griffe.Docstring(text, **base)           # attributes.parsed: what an extension does to an existing docstring
+        ds.parser, ds.parser_options = arg, kw
+        return ds.parsed, None
+    # source level: the text is the parent's real docstring; the agents build the Docstring with the loader's parser and options
+    parent, path = struct["parent"], struct["parent"]["path"]
+    if api in INSPECTING_APIS:
+        # the module is really imported: postponed evaluation keeps every generated annotation a string CPython need not resolve
+        _install_compat_modules()
+        future = "from __future__ import annotations\n"
+        source = source_with_docstring({"source": parent["source"].replace(future, "", 1), "path": path}, text)
+        if path == "":
+            lit, rest = source.split("\n", 1)        # a module docstring comes first (one physical line: a repr literal)
+            source = lit + "\n" + future + rest
+        else:
+            source = future + source
+    else:
+        source = source_with_docstring(parent, text)
+    _ENTRY_SERIAL[0] += 1
+    modname = f"vfc13e{_ENTRY_SERIAL[0]}"
+    tree = None
+    if api == "visit":
+        mod = visit_source(source, modname, docstring_parser=arg, docstring_options=kw)
+    elif api == "temporary_visited_module":
+        with griffe.temporary_visited_module(source, module_name=modname, docstring_parser=arg, docstring_options=kw) as mod:
+            pass
+    elif api == "temporary_inspected_module":
+        import sys
+
+        try:
+            with griffe.temporary_inspected_module(source, module_name=modname, docstring_parser=arg, docstring_options=kw) as mod:
+                pass
+        finally:
+            sys.modules.pop(modname, None)
+    elif api == "temporary_visited_package":
+        with griffe.temporary_visited_package(modname, {"sub.py": source}, docstring_parser=arg, docstring_options=kw) as pkg:
+            mod = pkg["sub"]
+    else:
+        with tmp_tree({f"{modname}.py": source}) as root:
+            if api == "GriffeLoader.load":
+                mod = griffe.GriffeLoader(search_paths=[root], docstring_parser=arg, docstring_options=kw, allow_inspection=False).load(modname)
+            elif api == "GriffeLoader.load-inspected":
+                import sys
+
+                try:
+                    mod = griffe.GriffeLoader(search_paths=[root], docstring_parser=arg, docstring_options=kw, force_inspection=True).load(modname)
+                finally:
+                    sys.modules.pop(modname, None)
+            elif api == "griffe.load":
+                mod = griffe.load(modname, search_paths=[root], docstring_parser=arg, docstring_options=kw, allow_inspection=False)
+            else:   # cli-dump: griffe dump <module> -s <dir> -d <style> -D <JSON options> -f -o <file>
+                import logging
+                import os
+
+                out = os.path.join(str(root), "dump.json")
+                level = logging.getLogger().level
+                try:
+                    rc = griffe.main(["dump", modname, "-s", str(root), "-d", arg, "-D", json.dumps(kw), "-f", "-o", out, "-L", "ERROR"])
+                finally:
+                    logging.getLogger().setLevel(level)
+                if rc != 0:
+                    raise HarnessError(f"griffe dump returned {rc}")
+                with open(out) as fh:
+                    node = json.load(fh)[modname]
+                for part in (path.split(".") if path else []):
+                    node = node["members"][part]
+                doc = node.get("docstring")
+                if not doc or "parsed" not in doc:
+                    raise HarnessError("the dumped object carries no parsed docstring")
+                return None, doc["parsed"]
+    obj = mod[path] if path else mod
+    ds = obj.docstring
+    if ds is None:
+        raise HarnessError(f"the object read through {api} has no docstring")
+    return ds.parsed, tree
+
+
+class _NullRec:
+    def count(self, *a) -> None:  # noqa: ANN002
+        pass
+
+
+def run_entries(rec, struct: dict, text: str, exp: list[dict], obs_raw: list[dict], tree_raw: list) -> list[dict]:  # noqa: ANN001, C901, PLR0912
+    """Every entry of struct['entries'] must give the sections the case's own parse gave (judged by the model in run_case).
+
+    A result that differs is judged by the model as well, so that the report says what was lost; the reference is never
+    Griffe's answer alone: the case's own sections are compared with the written structure by run_case.
+    """
+    import griffe
+
+    style, options, writing = struct["style"], struct["options"], struct.get("writing")
+    mism: list[dict] = []
+    # do these options decide anything for this text?  (the same text read by the style's parser with its default options)
+    try:
+        direct = {"google": griffe.parse_google, "numpy": griffe.parse_numpy, "sphinx": griffe.parse_sphinx}[style]
+        plain = observe(direct(griffe.Docstring(text, lineno=1, endlineno=1 + text.count("\n"), parent=parent_object(struct))))
+    except Exception:  # noqa: BLE001
+        plain = None
+    options_decide = bool(options) and plain is not None and plain != obs_raw
+    if options_decide:
+        rec.count("cases_whose_options_change_the_parsed_sections")
+    for e in struct["entries"]:
+        label = entry_label(e)
+        auto = e["selector"] != "named"
+        source_level = e["api"] in SOURCE_APIS
+        try:
+            sections, tree = sections_through_entry(e, struct, text)
+        except HarnessError:
+            raise
+        except Exception as exc:  # noqa: BLE001
+            mism.append({"path": ["entry", label], "what": "an entry point raised on a well-formed docstring",
+                         "observed": f"{type(exc).__name__}: {exc}"[:300], "expected": "the sections of the written structure"})
+            continue
+        if sections is None:
+            same = tree == tree_raw           # the command line gives the JSON form only
+            obs_e = None
+        else:
+            obs_e = observe(sections)
+            same = obs_e == obs_raw
+        rec.count("entry_point_results_compared")
+        rec.add_to_set("entry_points_compared", label)
+        if auto:
+            rec.count("auto_style_entry_point_results_compared")
+            if options_decide:
+                rec.count("auto_style_entry_results_compared_where_the_options_decide")
+            if e.get("method"):
+                rec.count("auto_style_entry_results_compared_with_a_method")
+        elif options_decide:
+            rec.count("named_style_entry_results_compared_where_the_options_decide")
+        if source_level:
+            rec.count("loader_level_option_entry_results_compared")
+            if auto:
+                rec.count("loader_level_auto_style_entry_results_compared")
+            if e["api"] in INSPECTING_APIS:
+                rec.count("inspected_docstring_entry_results_compared")
+            if e["api"] == "cli-dump":
+                rec.count("command_line_dump_entry_results_compared")
+        if same:
+            continue
+        if obs_e is None:
+            detail = [{"path": ["json"], "what": "JSON form of the parsed sections in the dump", "observed": json.dumps(tree)[:300],
+                       "expected": json.dumps(tree_raw)[:300]}]
+        else:
+            if writing:
+                obs_e = blank_is_blank(without_kept_whitespace(obs_e, style, options)[0])
+            detail = compare(style, exp, obs_e, _NullRec())[:4]
+        mism.append({"path": ["entry", label], "what": f"entry point {e['api']} ({e['selector']}) gives other sections than the {style} "
+                     "parser called with the same options", "observed": detail or "differs from the direct parse, though not in a field the model compares",
+                     "expected": "the written structure under the given options, whatever the entry point"})
+    return mism
+
+
 _PARENTS: dict[str, object] = {}
 
 
@@ -1757,20 +2044,23 @@ def run_case(rec, struct: dict) -> None:  # noqa: ANN001, C901, PLR0912
                 sections = ds.parse(style, **struct["options"])
             rec.count("structures_parsed")
             lines_now, lines_want = ds.lines, inspect.cleandoc(text.rstrip()).split("\n")
-            obs = observe(sections)
+            obs = obs_raw = observe(sections)
             kept_ws: list[str] = []
             if writing:
                 obs, kept_ws = without_kept_whitespace(obs, style, struct["options"])
                 obs = blank_is_blank(obs)
-            tree = json.loads(json.dumps(sections, cls=griffe.JSONEncoder))
+            tree = tree_raw = json.loads(json.dumps(sections, cls=griffe.JSONEncoder))
             if kept_ws:
                 tree = tree_without_kept_whitespace(tree)
             rec.count("json_roundtrips")
+            entry_mism: list[dict] = []
+            if struct.get("entries"):
+                entry_mism = run_entries(rec, struct, text, expect(struct), obs_raw, tree_raw)
     except CaseTimeout:
         rec.inconclusive(case, "per-case wall-clock watchdog fired")
         return
     except HarnessError as exc:
-        rec.fail(case, "harness: could not set up the object history", observed=str(exc), expected="the object carries the old docstring",
+        rec.fail(case, "harness: could not set up the case (object history / entry point)", observed=str(exc), expected="the object carries the docstring written for it",
                  nontrivial=nt, tags=tags)
         return
     except Exception as exc:  # noqa: BLE001
@@ -1790,7 +2080,7 @@ def run_case(rec, struct: dict) -> None:  # noqa: ANN001, C901, PLR0912
         rec.add_to_set("wrapper_spellings_compared", struct["parent"]["spelling"]["id"]
                        + ("+quoted" if struct["parent"]["spelling"]["quoted"] else "") + ("+future" if struct["parent"]["spelling"]["future"] else ""))
     exp = expect(struct)
-    mism = compare(style, exp, obs, rec) + extra_mism
+    mism = compare(style, exp, obs, rec) + extra_mism + entry_mism
     if writing:
         count_writing(rec, writing, lines_want)
     rec.count("lines_compared_with_value")
@@ -1863,6 +2153,7 @@ def shards(tier: str, seed: int) -> list[dict]:
 
 def run_shard(spec: dict, rec) -> None:  # noqa: ANN001
     rng = random.Random(spec["seed"])
+    erng = random.Random(spec["seed"] * 7919 + 13)      # the entry points have their own stream: the structures stay what they were
     style = spec["style"]
     for _ in range(spec["count"]):
         hostile = rng.choice(HOSTILE[style]) if rng.random() < 0.08 else None
@@ -1871,6 +2162,7 @@ def run_shard(spec: dict, rec) -> None:  # noqa: ANN001
             struct["history"] = gen_history(rng, struct)
         if rng.random() < WRITING_SHARE:
             struct["writing"] = gen_writing(rng, struct)
+        struct["entries"] = gen_entries(erng, struct)
         run_case(rec, struct)
 
 
